@@ -5,6 +5,7 @@ import (
 	"encoding/hex"
 	"errors"
 	"fmt"
+	"github.com/elastos/Elastos.ELA/core/contract"
 	"math"
 	"sort"
 	"strconv"
@@ -39,7 +40,7 @@ type OutSpec struct {
 }
 type TxSpec struct {
 	ID      string
-	Kind    string // cb ra wd rd pp rv tk sp ot
+	Kind    string // cb ra wd rd pp rv tk sp rc xc ot
 	PVer    byte
 	Nonce   string // hex of the Nonce attribute ("-" = no attribute)
 	Ins     []InSpec
@@ -177,6 +178,11 @@ func (n *Node) addrOf(no int) common.Uint168 {
 		return n.Accounts[no].ProgramHash
 	}
 	var ph common.Uint168
+	if no >= 900 && no < 1000 { // cross-chain ("X") address
+		ph[0] = byte(contract.PrefixCrossChain)
+		ph[1] = byte(no - 900)
+		return ph
+	}
 	ph[0] = 0x21
 	ph[1], ph[2], ph[3] = byte((no-1000)>>16), byte((no-1000)>>8), byte(no-1000)
 	return ph
@@ -272,6 +278,20 @@ func (n *Node) BuildTx(ts *TxSpec, height uint32) (interfaces.Transaction, error
 	case "sp": // side-chain mining proof in the original format (with inputs); the signature travels in pdatas
 		txType = ctypes.SideChainPow
 		pl = &payload.SideChainPow{SideBlockHash: ph(0), SideGenesisHash: ph(1), BlockHeight: 1, Signature: pd(0)}
+	case "rc": // Record: spends and pays like a transfer, carries a blob
+		txType = ctypes.Record
+		pl = &payload.Record{Type: "t", Content: pd(0)}
+	case "xc": // TransferCrossChainAsset, payload v0: every output to an X address (900..999) is a cross-chain output
+		txType = ctypes.TransferCrossChainAsset
+		x := &payload.TransferCrossChainAsset{}
+		for i, o := range ts.Outs {
+			if o.Addr >= 900 && o.Addr < 1000 {
+				x.CrossChainAddresses = append(x.CrossChainAddresses, fmt.Sprintf("side%d", i))
+				x.OutputIndexes = append(x.OutputIndexes, uint64(i))
+				x.CrossChainAmounts = append(x.CrossChainAmounts, common.Fixed64(o.Value)-n.Params.MinCrossChainTxFee)
+			}
+		}
+		pl = x
 	case "ot":
 		txType = ctypes.TransferAsset
 		pl = &payload.TransferAsset{}
@@ -279,7 +299,7 @@ func (n *Node) BuildTx(ts *TxSpec, height uint32) (interfaces.Transaction, error
 		return nil, fmt.Errorf("regnet: cannot build kind %q", ts.Kind)
 	}
 	tx := functions.CreateTransaction(version, txType, ts.PVer, pl, attrs, ins, outs, lock, []*program.Program{})
-	if ts.Kind == "ot" || ts.Kind == "sp" {
+	if ts.Kind == "ot" || ts.Kind == "sp" || ts.Kind == "rc" || ts.Kind == "xc" {
 		n.signByOwners(tx)
 	}
 	return tx, nil
